@@ -63,9 +63,13 @@ namespace mustache {
         }
         template <typename T>
         EventId registerEventType() noexcept {
+            // The id is process-global, but the slot table belongs to this manager: grow it if needed
+            // (never shrink it: higher ids may already have subscribers) and create the slot if absent.
             static EventId result = registerEventType(type_name<T>());
-            if(!subscriptions_.has(result) || !subscriptions_[result]) {
+            if(!subscriptions_.has(result)) {
                 subscriptions_.resize(result.toInt() + 1);
+            }
+            if(!subscriptions_[result]) {
                 subscriptions_[result].reset(new Receivers<T>{});
             }
             return result;
@@ -94,20 +98,20 @@ namespace mustache {
 
         template <typename T, typename F>
         void subscribe_(F* sub) {
-            static const EventId id = registerEventType<T>();
+            const EventId id = registerEventType<T>();
             sub->events_ = shared_from_this_;
             static_cast<Receivers<T>* >(subscriptions_[id].get())->add(sub);
         }
 
         template <typename T>
         void unsubscribe(Receiver<T>* sub) {
-            static const EventId id = registerEventType<T>();
+            const EventId id = registerEventType<T>();
             static_cast<Receivers<T>* >(subscriptions_[id].get())->remove(sub);
         }
 
         template <typename T>
         void post(const T& event) noexcept {
-            static const EventId id = registerEventType<T>();
+            const EventId id = registerEventType<T>();
             static_cast<Receivers<T>* >(subscriptions_[id].get())->onEvent(event);
         }
     private:
